@@ -91,8 +91,13 @@ InSel(s, a) == CASE s.t = "all"  -> TRUE
 Selected(s, a) == InSel(s, StaticPart(a))      \* index levels are transparent
 
 ---------------------------------------------------------------------------
+\* Tables of dyadic categorical distributions: row r of table t = log2-probabilities of the values 0,1,2
+LTab == << << <<-1, -2, -2>>, <<-2, -1, -2>>, <<-2, -2, -1>> >>,      \* table 1: mode follows the parent
+           << <<-2, -2, -1>>, <<-1, -2, -2>>, <<-1, -2, -2>> >> >>     \* table 2
+LRow(t, r) == Vc([j \in 1..3 |-> I(LTab[t][r + 1][j])])
+
 \* Expressions of the static language / dimap maps:  [e, i, k]
-\*  arg i | xarg i | site i | const c | lit c | add(a,b) mod 3 | tup(..) | ix(e, i) | none
+\*  arg i | xarg i | site i | const c | lit c | add(a,b) mod 3 | tup(..) | ix(e, i) | none | lrow t (index expr)
 Ex(e, i, k) == [e |-> e, i |-> i, k |-> k]
 RECURSIVE EvalE(_, _, _, _)
 EvalE(x, args, xargs, env) ==
@@ -104,6 +109,7 @@ EvalE(x, args, xargs, env) ==
     [] x.e = "add"   -> I((EvalE(x.k[1], args, xargs, env).i + EvalE(x.k[2], args, xargs, env).i) % 3)
     [] x.e = "tup"   -> Tp([j \in 1..Len(x.k) |-> EvalE(x.k[j], args, xargs, env)])
     [] x.e = "ix"    -> EvalE(x.k[1], args, xargs, env).k[x.i]
+    [] x.e = "lrow"  -> LRow(x.i, IF x.k = <<>> THEN 0 ELSE EvalE(x.k[1], args, xargs, env).i)
 \* may the value of x differ / be tagged Unknown, given taint of args and sites
 RECURSIVE TaintE(_, _, _, _)
 TaintE(x, targs, txargs, tenv) ==
